@@ -496,14 +496,18 @@ impl FixtureDatabase {
         let mut available_fixtures = Vec::new();
         let mut seen_names = HashSet::new();
 
-        // Priority 1: Fixtures in the same file
+        // Priority 1: Fixtures in the same file (a name defined twice: the last definition
+        // wins, as in Python and as in find_closest_definition)
         for entry in self.definitions.iter() {
             let fixture_name = entry.key();
-            for def in entry.value().iter() {
-                if def.file_path == file_path && !seen_names.contains(fixture_name.as_str()) {
-                    available_fixtures.push(def.clone());
-                    seen_names.insert(fixture_name.clone());
-                }
+            if let Some(def) = entry
+                .value()
+                .iter()
+                .filter(|def| def.file_path == file_path)
+                .max_by_key(|def| def.line)
+            {
+                available_fixtures.push(def.clone());
+                seen_names.insert(fixture_name.clone());
             }
         }
 
